@@ -242,6 +242,10 @@ def check_property(prop, targets, *, tier="quick", assumptions=(), trusted_base=
                     n_obl += 1
                 continue
             # refuted
+            if is_bounded:
+                n_bounded_obl += 1
+            else:
+                n_obl += 1
             sig = o.get("key")
             if sig is None:
                 if getattr(tgt, "classify", None):
